@@ -132,11 +132,8 @@ Definition dupd_default {V} (dflt : V) (k : str) (g : V -> V) (m : list (str * V
   | Some v => dupd k g m
   | None => m ++ [(k, g dflt)]
   end.
-Fixpoint ddel {V} (k : str) (m : list (str * V)) : list (str * V) :=
-  match m with
-  | [] => []
-  | (k', v) :: r => if str_eqb k k' then r else (k', v) :: ddel k r
-  end.
+Definition ddel {V} (k : str) (m : list (str * V)) : list (str * V) :=     (* del d[k] *)
+  filter (fun kv => negb (str_eqb k (fst kv))) m.
 Definition haskey {V} (k : str) (m : list (str * V)) : bool :=
   match lookup k m with Some _ => true | None => false end.
 
